@@ -1,31 +1,57 @@
 """Translator (C13): wrapper tables of the C binding (src/IPhreeqcLib.cpp) and of the Fortran binding
-(src/IPhreeqc_interface_F.cpp, cross-checked with the bind(C) declarations of IPhreeqc_interface.F90)
-→ lean/PhreeqcVerif/Gen/ApiTable.lean. Fails closed when a function does not have the recognised shape."""
+(src/IPhreeqc_interface_F.cpp, cross-checked with the bind(C) declarations of IPhreeqc_interface.F90 and with the
+declarations and doc comments of IPhreeqc.h / IPhreeqc_interface_F.h) → lean/PhreeqcVerif/Gen/ApiTable.lean.
+
+What is a wrapper is decided by the PUBLIC HEADERS: a function defined in IPhreeqcLib.cpp is a wrapper iff IPhreeqc.h
+declares it; everything else in that file (file-static functions, `IPhreeqcLib::` members) is a helper and is only read when a
+wrapper delegates to it (followed one level).  Facts are extracted by a small interpreter over the statement structure of
+each body (if / else / return / switch / try, constant propagation for locals), run once with "the looked-up pointer is null"
+and once with "it is not", so nested-if and early-return shapes, renamed locals, reordered case labels and definitions, C and
+C++ casts, 0 / NULL / nullptr, named integer constants give the same facts.  A fact that cannot be brought into one of the
+recognised normal forms is emitted as UNKNOWN (`shape = "?…"`, argument `"?"`): the static obligation then says nothing about
+that wrapper, the check reports it in the evidence and relies on the behavioural tie (every function is called through the
+three bindings on live and dead ids).  Nothing in here raises for an unfamiliar function body."""
 import re
-from pathlib import Path
 
 import vlib
 
 
 def strip_comments(src):
-    src = re.sub(r"/\*.*?\*/", "", src, flags=re.S)
+    src = re.sub(r"/\*.*?\*/", lambda m: "\n" * m.group(0).count("\n"), src, flags=re.S)
     src = re.sub(r"//[^\n]*", "", src)
     return src
+
+
+INT_CONST = re.compile(r"^[ \t]*(?:static\s+)?(?:const\s+(?:static\s+)?|constexpr\s+)(?:unsigned\s+|signed\s+)?(?:int|long|short|size_t|unsigned)\s+(\w+)\s*=\s*(-?\d+)[uUlL]*\s*;", re.M)
+INT_DEFINE = re.compile(r"^[ \t]*#\s*define\s+(\w+)\s+\(?(-?\d+)[uUlL]*\)?[ \t]*$", re.M)
+
+
+def substitute_constants(src):
+    """named integer constants of the file (`static const int N = 1;`, `#define N 1`, enumerators with explicit values) are
+    replaced by their values, so that `(*n) - FORTRAN_INDEX_BASE` reads `(*n) - 1`"""
+    consts = dict(INT_CONST.findall(src))
+    consts.update(dict(INT_DEFINE.findall(src)))
+    for body in re.findall(r"\benum\b[^{;]*\{([^}]*)\}", src):
+        for n, v in re.findall(r"(\w+)\s*=\s*(-?\d+)", body):
+            consts.setdefault(n, v)
+    src = INT_CONST.sub(lambda m: "", src)
+    for n, v in consts.items():
+        src = re.sub(r"\b" + re.escape(n) + r"\b", v, src)
+    return src, consts
 
 
 def functions(src):
     """top-level function definitions: (ret, name, params_text, body)"""
     out = []
-    pat = re.compile(r"^([A-Za-z_][\w \*]*?)\s*\n?([A-Za-z_][\w:]*)\s*\(((?:[^()]|\((?:[^()]|\([^()]*\))*\))*)\)\s*\n\{", re.M)
+    pat = re.compile(r"^([A-Za-z_][\w \t\*&:<>]*?)[ \t]*\n?[ \t]*([A-Za-z_][\w:]*)\s*\(((?:[^()]|\((?:[^()]|\([^()]*\))*\))*)\)\s*(?:const\s*)?\{", re.M)
     for m in pat.finditer(src):
-        # find matching brace
+        if re.search(r"\b(if|while|for|switch|return|else|catch)\b", m.group(1) + " " + m.group(2)):
+            continue
         i = m.end()
         depth = 1
         while depth and i < len(src):
-            if src[i] == "{":
-                depth += 1
-            elif src[i] == "}":
-                depth -= 1
+            depth += src[i] == "{"
+            depth -= src[i] == "}"
             i += 1
         out.append((" ".join(m.group(1).split()), m.group(2), m.group(3).strip(), src[m.end():i - 1]))
     return out
@@ -64,14 +90,21 @@ def params(ptxt):
     return res
 
 
-def call_args(body, start):
-    """text between the parenthesis opening at `start` and its match"""
-    depth, i = 1, start
-    while depth and i < len(body):
-        depth += body[i] == "("
-        depth -= body[i] == ")"
+def match_close(s, i, op="(", cl=")"):
+    """index just behind the bracket that closes the one opened at s[i]"""
+    depth = 0
+    while i < len(s):
+        depth += s[i] == op
+        depth -= s[i] == cl
         i += 1
-    return body[start:i - 1]
+        if depth == 0:
+            return i
+    return len(s)
+
+
+def call_args(body, start):
+    """text between the parenthesis opening just before `start` and its match"""
+    return body[start:match_close(body, start - 1) - 1]
 
 
 def lean_str(s):
@@ -82,52 +115,443 @@ def lean_list(xs):
     return "[" + ", ".join(xs) + "]"
 
 
-def extract_c(src):
-    ws = []
-    for ret, name, ptxt, body in functions(src):
-        if "::" in name:
-            continue
-        ps = params(ptxt)
-        if (not ps or ps[0] != ("int", "id")) and name not in ("CreateIPhreeqc", "GetVersionString"):
-            raise RuntimeError(f"gen_api: C wrapper {name} has an unrecognised parameter list: {ptxt}")
-        calls = []
-        for m in re.finditer(r"IPhreeqcPtr->(\w+)\s*\(", body):
-            calls.append((m.group(1), [re.sub(r"\s+", "", a) for a in split_args(call_args(body, m.end()))]))
-        lookups = re.findall(r"IPhreeqcLib::(\w+)\s*\(\s*(\w*)\s*\)", body)
-        lookups += [("static " + m, a) for m, a in re.findall(r"IPhreeqc::(\w+)\s*\(\s*(\w*)\s*\)", body)]
-        rets = re.findall(r"return\s+([^;]+);", body)
-        bad = rets[-1].strip() if rets else ""
-        statics = dict(re.findall(r"static const char (\w+)\[\]\s*=\s*\"((?:[^\"\\]|\\.)*)\"", body))
-        bad_text = statics.get(bad, "")
-        bad_text = bad_text.encode().decode("unicode_escape") if bad_text else ""
-        trans = re.findall(r"case\s+(VR_\w+)\s*:\s*return\s+(IPQ_\w+)", body)
-        w = dict(name=name, ret=ret, params=ps, calls=calls, lookups=lookups, bad=bad, bad_text=bad_text,
-                 bad_is_static=bad in statics, trans=trans)
-        if w not in ws:                 # the two #ifdef variants of SetBasicFortranCallback have the same shape
-            ws.append(w)
-    return ws
+# ------------------------------------------------------------------------------------------------ expressions
+CAST = re.compile(r"(?:static_cast|reinterpret_cast|const_cast)\s*<[^<>]*(?:<[^<>]*>[^<>]*)*>\s*")
+CCAST = re.compile(r"\(\s*(?:const\s+)?(?:unsigned\s+|signed\s+)?(?:int|long|short|char|bool|size_t|double|float|unsigned|IPQ_RESULT|VRESULT)\s*\*?\s*\)")
+FCAST = re.compile(r"\b(?:size_t|int|bool|long|unsigned)\s*(?=\()")
 
 
-def extract_f(src):
-    ws = []
-    for ret, name, ptxt, body in functions(src):
-        if not name.endswith("F") or name in ("padfstring",):
+def strip_outer_parens(e):
+    while e.startswith("(") and match_close(e, 0) == len(e):
+        e = e[1:-1]
+    return e
+
+
+def canon(e):
+    """canonical text of a small expression: no blanks, no casts, 0 for NULL/nullptr, no redundant outer parentheses,
+    `(*x)` for a dereferenced name"""
+    e = re.sub(r"\s+", "", CAST.sub("", " " + e))
+    e = CCAST.sub("", e)
+    e = FCAST.sub("", e)
+    e = re.sub(r"\b(nullptr|NULL)\b", "0", e)
+    e = strip_outer_parens(e)
+    e = re.sub(r"(?<![\w>\]])\((\w+)\)", r"\1", e)       # (x) -> x   (not the argument list of a call)
+    e = re.sub(r"(?<![\w>\]])\(\*(\w+)\)", r"*\1", e)    # (*x) -> *x
+    return strip_outer_parens(e)
+
+
+def canon_bool_of_int(e, names):
+    """`value != 0` and its spellings -> "value!=0"; None if not one of them"""
+    e = canon(e)
+    for n in names:
+        if e in (f"{n}!=0", f"0!={n}", f"!!{n}", f"{n}?true:false", f"{n}?1:0", f"!({n}==0)", f"!(0=={n})"):
+            return f"{n}!=0"
+    return None
+
+
+# ------------------------------------------------------------------------------------------------ statements
+def parse_stmts(s):
+    """statement list of a function body (text between the braces): ('if', cond, then, else) ('return', expr)
+    ('switch', expr, text) ('try', stmts, [catch stmts]) ('block', stmts) ('stmt', text)"""
+    out, i, n = [], 0, len(s)
+
+    def skip_ws(i):
+        while i < n and s[i].isspace():
+            i += 1
+        return i
+
+    def one(i):
+        i = skip_ws(i)
+        if i >= n:
+            return None, i
+        if s[i] == "{":
+            j = match_close(s, i, "{", "}")
+            return ("block", parse_stmts(s[i + 1:j - 1])), j
+        m = re.compile(r"(if|switch|while|for)\s*\(").match(s, i)
+        if m:
+            j = match_close(s, m.end() - 1)
+            cond = s[m.end():j - 1]
+            if m.group(1) == "switch":
+                k = skip_ws(j)
+                e = match_close(s, k, "{", "}") if k < n and s[k] == "{" else k
+                return ("switch", cond, s[k + 1:e - 1]), e
+            body, j = one(j)
+            body = body[1] if body and body[0] == "block" else ([body] if body else [])
+            if m.group(1) != "if":
+                return ("loop", cond, body), j
+            k = skip_ws(j)
+            els = []
+            m2 = re.compile(r"else\b").match(s, k)
+            if m2:
+                eb, j = one(m2.end())
+                els = eb[1] if eb and eb[0] == "block" else ([eb] if eb else [])
+            return ("if", cond, body, els), j
+        m = re.compile(r"try\b").match(s, i)
+        if m:
+            blk, j = one(m.end())
+            catches = []
+            while True:
+                k = skip_ws(j)
+                m2 = re.compile(r"catch\s*\(").match(s, k)
+                if not m2:
+                    break
+                k = match_close(s, m2.end() - 1)
+                cb, j = one(k)
+                catches.append(cb[1] if cb and cb[0] == "block" else [cb])
+            return ("try", blk[1] if blk and blk[0] == "block" else [blk], catches), j
+        m = re.compile(r"return\b").match(s, i)
+        j = i
+        depth = 0
+        while j < n and not (s[j] == ";" and depth == 0):
+            depth += s[j] in "([{"
+            depth -= s[j] in ")]}"
+            j += 1
+        text = s[i:j].strip()
+        if m:
+            return ("return", text[6:].strip()), j + 1
+        return ("stmt", text), j + 1
+
+    while True:
+        st, i = one(i)
+        if st is None:
+            break
+        if st != ("stmt", ""):
+            out.append(st)
+    return out
+
+
+LOOKUP = re.compile(r"(?:\w[\w\s\*]*?[\s\*])?(\w+)\s*=\s*IPhreeqcLib\s*::\s*GetInstance\s*\(\s*(\w+)\s*\)$")
+
+
+class Run:
+    """one abstract execution of a body: the pointer obtained from GetInstance is null (`live=False`) or not"""
+
+    def __init__(self, live, id_nonneg=None):
+        self.live, self.id_nonneg = live, id_nonneg
+        self.outcomes = set()           # resolved return values ("" = falls off the end / plain return)
+        self.deleted = False
+        self.ptrs = set()
+        self.strings = {}
+
+    def truth(self, cond, env):
+        c = canon(cond)
+        m = LOOKUP.match(" ".join(cond.split()))
+        if m:
+            self.ptrs.add(m.group(1))
+            env[m.group(1)] = "<ptr>"
+            return self.live
+        for p in [v for v, val in env.items() if val == "<ptr>"]:
+            if c in (p, f"{p}!=0", f"0!={p}"):
+                return self.live
+            if c in (f"!{p}", f"{p}==0", f"0=={p}"):
+                return not self.live
+        if self.id_nonneg is not None:
+            if c in ("id>=0", "0<=id", "id>-1", "-1<id"):
+                return self.id_nonneg
+            if c in ("id<0", "0>id", "id<=-1", "-1>=id"):
+                return not self.id_nonneg
+        return None
+
+    def value(self, e, env):
+        c = canon(e)
+        if c in env and env[c] not in (None, "<ptr>"):
+            return env[c]
+        return c
+
+    def stmt(self, text, env):
+        t = " ".join(text.split())
+        m = LOOKUP.match(t)
+        if m:
+            self.ptrs.add(m.group(1))
+            env[m.group(1)] = "<ptr>"
+            return
+        m = re.match(r"static const char (\w+)\s*\[\s*\]\s*=\s*\"((?:[^\"\\]|\\.)*)\"$", t)
+        if m:
+            self.strings[m.group(1)] = m.group(2).encode().decode("unicode_escape")
+            env[m.group(1)] = m.group(1)
+            return
+        m = re.match(r"delete\s+(\w+)$", t)
+        if m and env.get(m.group(1)) == "<ptr>" and self.live:
+            self.deleted = True
+            return
+        m = re.match(r"(?:[\w:<>\*&\s]+?[\s\*&])?(\w+)\s*=\s*([\w\-]+)$", t)        # T v = CONST;  /  v = CONST;
+        if m and not re.match(r"^(return|delete|throw)\b", t):
+            env[m.group(1)] = env.get(m.group(2), m.group(2)) if env.get(m.group(2)) not in (None, "<ptr>") else m.group(2)
+            return
+        m = re.match(r"(?:[\w:<>\*&\s]+?[\s\*&])?(\w+)\s*=", t)
+        if m:
+            env[m.group(1)] = None          # assigned something we do not follow
+
+    def block(self, stmts, env):
+        """returns False when every path through the statements has returned"""
+        for st in stmts:
+            k = st[0]
+            if k == "return":
+                self.outcomes.add(self.value(st[1], env) if st[1] else "")
+                return False
+            if k == "stmt":
+                self.stmt(st[1], env)
+            elif k == "block":
+                if not self.block(st[1], env):
+                    return False
+            elif k == "if":
+                t = self.truth(st[1], env)
+                if t is True:
+                    if not self.block(st[2], env):
+                        return False
+                elif t is False:
+                    if not self.block(st[3], env):
+                        return False
+                else:
+                    e1, e2 = dict(env), dict(env)
+                    c1, c2 = self.block(st[2], e1), self.block(st[3], e2)
+                    if not c1 and not c2:
+                        return False
+                    live_envs = [e for e, c in ((e1, c1), (e2, c2)) if c]
+                    for v in set().union(*[set(e) for e in live_envs]):
+                        vals = {e.get(v) for e in live_envs}
+                        env[v] = vals.pop() if len(vals) == 1 else None
+            elif k == "switch":
+                for r in re.findall(r"\breturn\s+([^;]*);", st[2]):
+                    self.outcomes.add(self.value(r, env))
+            elif k == "loop":
+                e1 = dict(env)
+                self.block(st[2], e1)
+                for v in e1:
+                    if e1[v] != env.get(v):
+                        env[v] = None
+            elif k == "try":
+                if not self.block(st[1], env):
+                    cont = False
+                    for c in st[2]:
+                        cont = self.block(c, dict(env)) or cont
+                    if not cont:
+                        return False
+                else:
+                    for c in st[2]:
+                        self.block(c, dict(env))
+        return True
+
+    def run(self, body):
+        env = {}
+        if self.block(parse_stmts(body), env):
+            self.outcomes.add("")
+        return self
+
+
+def strip_pp(body):
+    return re.sub(r"^[ \t]*#[^\n]*", "", body, flags=re.M)
+
+
+def one(s):
+    return next(iter(s)) if len(s) == 1 else None
+
+
+def case_pairs(text):
+    return sorted(set(re.findall(r"case\s+(VR_\w+)\s*:\s*return\s+(IPQ_\w+)", text)))
+
+
+def extract_wrapper(name, ret, ps, body, helpers):
+    """facts of one C wrapper; never raises for an unfamiliar body (shape "?…" instead)"""
+    body = strip_pp(body)
+    w = dict(name=name, ret=ret, params=ps, calls=[], lookups=[], bad="?", bad_text="", bad_is_static=False, trans=[], shape="ok")
+    w["lookups"] = re.findall(r"IPhreeqcLib\s*::\s*(\w+)\s*\(\s*(\w*)\s*\)", body)
+    w["lookups"] += [("static " + m, a) for m, a in re.findall(r"\bIPhreeqc\s*::\s*(\w+)\s*\(\s*(\w*)\s*\)", body)]
+    dead, live = Run(False).run(body), Run(True, True).run(body)
+    ptrs = dead.ptrs | live.ptrs
+    pnames = [p[1] for p in ps]
+    # forwarded method call(s) on the looked-up object, arguments in normal form
+    for p in sorted(ptrs):
+        for m in re.finditer(r"\b" + p + r"\s*->\s*(\w+)\s*\(", body):
+            args = []
+            for a in split_args(call_args(body, m.end())):
+                c = canon(a)
+                b = canon_bool_of_int(a, pnames)
+                args.append(c if c in pnames else (b if b else "?"))
+            w["calls"].append((m.group(1), args))
+    # result translation: in the body or, one level down, in a helper the body hands the method's result to
+    text = body
+    for h, hb in helpers.items():
+        if "::" not in h and re.search(r"\b" + h + r"\s*\(", body):
+            text += "\n" + strip_pp(hb)
+    w["trans"] = case_pairs(text)
+    # result for an id that is not live
+    if name in ("DestroyIPhreeqc", "CreateIPhreeqc", "GetVersionString"):
+        return w
+    if not ptrs:
+        w["shape"] = "?no GetInstance lookup recognised"
+        return w
+    bad = one(dead.outcomes)
+    if bad is None:
+        w["shape"] = "?result for a null instance not unique: " + ",".join(sorted(dead.outcomes))
+        return w
+    w["bad"] = bad
+    if bad in dead.strings:
+        w["bad_is_static"], w["bad_text"] = True, dead.strings[bad]
+    return w
+
+
+HELPER_FACT_KEYS = ["create.oom", "create.returnsIndex", "destroy.deletes", "destroy.live", "destroy.notlive", "getinstance.finds",
+                    "getinstance.returns"]
+
+
+def helper_facts(helpers):
+    """semantic facts of the three registry helpers (each "?" when the shape is not recognised; never raises)"""
+    f = {k: "?" for k in HELPER_FACT_KEYS}
+    for part in (_destroy_facts, _getinstance_facts, _create_facts):
+        try:
+            f.update(part(helpers))
+        except Exception:
+            pass
+    return f
+
+
+def _destroy_facts(helpers):
+    f = {}
+    d = strip_pp(helpers.get("IPhreeqcLib::DestroyIPhreeqc", ""))
+    dead = [Run(False, n).run(d) for n in (True, False)]
+    neg = Run(True, False).run(d)
+    live = Run(True, True).run(d)
+    dead_out = set().union(*[r.outcomes for r in dead]) | neg.outcomes
+    f["destroy.notlive"] = one(dead_out) or "?"
+    f["destroy.live"] = one(live.outcomes) or "?"
+    f["destroy.deletes"] = "yes" if live.deleted and not neg.deleted and not any(r.deleted for r in dead) else "?"
+    return f
+
+
+def _getinstance_facts(helpers):
+    f = {}
+    g = canon_body(helpers.get("IPhreeqcLib::GetInstance", ""))
+    m = re.search(r"(\w+)=IPhreeqc::Instances\.find\((\w+)\)", g)
+    key_ok = bool(m) and (m.group(2) == "id" or re.search(r"\b" + m.group(2) + r"=id;", g) is not None)
+    f["getinstance.finds"] = "yes" if key_ok else "?"
+    it = re.escape(m.group(1)) if m else "<none>"
+    r = re.search(r"return(\w+);\}?$", g)
+    rv = re.escape(r.group(1)) if r else None
+    f["getinstance.returns"] = "yes" if rv and re.search(r"\b" + rv + r"=(?:\*" + it + r"\.|\(\*" + it + r"\)\.|" + it + r"->)second;", g) and \
+        re.search(r"\b" + rv + r"=0;", g) else "?"
+    return f
+
+
+def _create_facts(helpers):
+    f = {}
+    c = canon_body(helpers.get("IPhreeqcLib::CreateIPhreeqc", ""))
+    m = re.search(r"(\w+)=newIPhreeqc(?:\(\))?;", c)
+    f["create.returnsIndex"] = "?"
+    if m:
+        p = m.group(1)
+        m2 = re.search(r"(\w+)=" + p + r"->Index;", c)
+        if m2 and re.search(r"return" + m2.group(1) + r";\}?$", c):
+            f["create.returnsIndex"] = "yes"
+        elif re.search(r"return" + p + r"->Index;", c):
+            f["create.returnsIndex"] = "yes"
+    m = re.search(r"catch\([^)]*bad_alloc[^)]*\)\{return(\w+);\}", c)
+    f["create.oom"] = m.group(1) if m else "?"
+    return f
+
+
+def canon_body(b):
+    """body text without blanks, casts, declarations' type words kept out of the way of the `x=…;` patterns"""
+    b = CAST.sub("", strip_pp(b))
+    b = CCAST.sub("", b)
+    b = re.sub(r"\b(nullptr|NULL)\b", "0", b)
+    b = re.sub(r"\b(const|typename|volatile)\b", " ", b)
+    b = FCAST.sub("", b)
+    b = re.sub(r"(?<![\w>\]])\(\s*(\w+)\s*\)", r"\1", b)
+    b = re.sub(r"(?<![\w>\]])\(\s*\*\s*(\w+)\s*\)", r"*\1", b)
+    b = re.sub(r"(?<![\w>\]])\(\s*(\w+\s*->\s*\w+)\s*\)", r"\1", b)
+    # drop the type in front of a declared name:  T<...>::it x = e;  ->  x=e;
+    b = re.sub(r"(?<![\w>])(?:[A-Za-z_][\w:]*(?:<[^;=]*?>)?(?:::\w+)*[\s\*&]+)+(\w+)\s*=", r"\1=", b)
+    return re.sub(r"\s+", "", b)
+
+
+def extract_c(src, wrapper_names):
+    """(wrappers declared in the public header, helpers = every other function of the file)"""
+    fns = functions(src)
+    helpers = {name: body for ret, name, ptxt, body in fns if name not in wrapper_names}
+    ws, seen = [], set()
+    for ret, name, ptxt, body in fns:
+        if name not in wrapper_names:
             continue
+        ret = " ".join(ret.replace("static", "").replace("extern", "").split()).replace(" *", "*")
         ps = params(ptxt)
-        calls = []
-        for m in re.finditer(r"::(\w+)\s*\(", body):
-            calls.append((m.group(1), [re.sub(r"\s+", "", a) for a in split_args(call_args(body, m.end()))]))
-        calls = [c for c in calls if c[0] not in ("snprintf", "VarClear", "strncpy")]
-        pads = []
-        for m in re.finditer(r"padfstring\s*\(", body):
-            pads.append([re.sub(r"\s+", "", a) for a in split_args(call_args(body, m.end()))])
-        w = dict(name=name, ret=ret, params=ps, calls=calls, pads=pads,
-                 rows_minus_heading=bool(re.search(r"rows\s*-=\s*1", body)),
-                 rows_guard=" ".join(re.findall(r"if\s*\(([^)]*)\)\s*\{?\s*rows\s*-=\s*1", body)),
-                 adjcol=bool(re.search(r"adjcol\s*=\s*\*col\s*-\s*1", body)))
-        if w not in ws:
-            ws.append(w)
-    return ws
+        try:
+            w = extract_wrapper(name, ret, ps, body, helpers)
+        except Exception as e:                                   # never die on an unfamiliar body
+            w = dict(name=name, ret=ret, params=ps, calls=[], lookups=[], bad="?", bad_text="", bad_is_static=False, trans=[],
+                     shape="?extraction failed: " + type(e).__name__)
+        if name in seen:
+            # the two #ifdef variants of SetBasicFortranCallback: keep one entry; differing facts make the shape unknown
+            old = next(x for x in ws if x["name"] == name)
+            if old != w:
+                old["shape"] = "?two definitions with different facts"
+            continue
+        seen.add(name)
+        ws.append(w)
+    return sorted(ws, key=lambda w: w["name"]), helpers
+
+
+F_ARG = re.compile(r"^(\*\w+|\w+|\*\w+-1|&\w+)$")
+
+
+def extract_f(src, names):
+    ws, seen = [], set()
+    for ret, name, ptxt, body in functions(src):
+        if name not in names:
+            continue
+        body = strip_pp(body)
+        if name == "GetSelectedOutputValueF":
+            # canonical names for its three locals (column index, VAR, text buffer), whatever they are called
+            for pat, canon_name in ((r"\bint\s+(\w+)\s*=\s*\(?\s*\*\s*col\s*\)?\s*-\s*1\s*;", "adjcol"), (r"\bVAR\s+(\w+)\s*;", "v"),
+                                    (r"\bchar\s+(\w+)\s*\[", "buffer")):
+                mm = re.search(pat, body)
+                if mm and mm.group(1) != canon_name:
+                    body = re.sub(r"\b" + mm.group(1) + r"\b", canon_name, body)
+        ps = params(ptxt)
+        w = dict(name=name, ret=" ".join(ret.split()).replace(" *", "*"), params=ps, calls=[], pads=[], rows_minus_heading=False, rows_guard="",
+                 adjcol=False, shape="ok")
+        try:
+            locals_ = {m.group(1): m.group(2).strip() for m in re.finditer(r"(?:const\s+)?(?:char|int)\s*\*?\s*(?:const\s+)?(\w+)\s*=\s*([^;]+);", body)}
+
+            def arg(a):
+                c = canon(a)
+                return c if F_ARG.match(c) else "?"
+            for m in re.finditer(r"::\s*(\w+)\s*\(", body):
+                if m.group(1) in ("snprintf", "VarClear", "strncpy", "VarInit"):
+                    continue
+                w["calls"].append((m.group(1), [arg(a) for a in split_args(call_args(body, m.end()))]))
+            for m in re.finditer(r"\bpadfstring\s*\(", body):
+                pa = []
+                for a in split_args(call_args(body, m.end())):
+                    a = locals_.get(a.strip(), a) if re.match(r"^\w+$", a.strip()) and "::" in locals_.get(a.strip(), "") else a
+                    mm = re.match(r"^\s*::\s*(\w+)\s*\((.*)\)\s*$", a, re.S)
+                    if mm:
+                        pa.append("::" + mm.group(1) + "(" + ",".join(arg(x) for x in split_args(mm.group(2))) + ")")
+                    else:
+                        pa.append(re.sub(r"\s+", "", a))
+                w["pads"].append(pa)
+            cb = canon_body(body)
+            if name == "GetSelectedOutputRowCountF":
+                m = re.search(r"if\((rows>0|0<rows)\)\{?(rows-=1|rows=rows-1|--rows|rows--);", cb)
+                if m:
+                    w["rows_minus_heading"], w["rows_guard"] = True, "rows > 0"
+                elif re.search(r"rows", cb) and not re.search(r"rows(-=|=rows-|--)|--rows", cb):
+                    pass                                              # no adjustment at all: a known (wrong) shape
+                else:
+                    w["shape"] = "?row-count adjustment not in a recognised form"
+            else:
+                w["rows_minus_heading"] = bool(re.search(r"rows(-=1|=rows-1|--)|--rows", cb))
+            w["adjcol"] = bool(re.search(r"adjcol=\*col-1;", cb))
+        except Exception as e:
+            w["shape"] = "?extraction failed: " + type(e).__name__
+        if name in seen:
+            old = next(x for x in ws if x["name"] == name)
+            if old != w:
+                old["shape"] = "?two definitions with different facts"
+            continue
+        seen.add(name)
+        ws.append(w)
+    return sorted(ws, key=lambda w: w["name"])
 
 
 def header_decls(src):
@@ -146,21 +570,18 @@ def doc_facts(src):
     """what the doc comment in front of each declaration of IPhreeqc.h says about results (mechanical reading):
     the @retval names, "a negative value indicates an error", the one-based note for Fortran, zero-based index parameter,
     "empty string if n is out of range" """
-    out = []
+    out = {}
     for m in re.finditer(r"/\*\*(.*?)\*/\s*IPQ_DLL_EXPORT\s+[^;(]*?\b(\w+)\s*\(", src, re.S):
         doc, name = m.group(1), m.group(2)
         # a doc block may contain an embedded declaration in an #ifdef example; the regex takes the nearest /** ... */
         doc = doc[doc.rfind("/**") + 3:] if "/**" in doc else doc
         retvals = sorted(set(re.findall(r"@retval\s+(IPQ_\w+)", doc)))
-        out.append((name, retvals,
-                    bool(re.search(r"negative value indicates an error", doc)),
-                    bool(re.search(r"one-based for the Fortran interface", doc, re.I)),
-                    bool(re.search(r"@param\s+n\s+The zero-based index", doc)),
-                    bool(re.search(r"empty string if n is out of range", doc, re.I))))
-    names = [o[0] for o in out]
-    if len(set(names)) != len(names):
-        raise RuntimeError("gen_api: a function of IPhreeqc.h has two doc blocks: " + str(sorted(n for n in names if names.count(n) > 1)))
-    return sorted(out)
+        out.setdefault(name, (name, retvals,
+                              bool(re.search(r"negative value indicates an error", doc)),
+                              bool(re.search(r"one-based for the Fortran interface", doc, re.I)),
+                              bool(re.search(r"@param\s+n\s+The zero-based index", doc)),
+                              bool(re.search(r"empty string if n is out of range", doc, re.I))))
+    return sorted(out.values())
 
 
 def extract_f90(src):
@@ -174,32 +595,30 @@ def extract_f90(src):
 
 
 def generate(ctx=None):
-    src_c = strip_comments((vlib.REPO / "src" / "IPhreeqcLib.cpp").read_text(errors="replace"))
-    src_f = strip_comments((vlib.REPO / "src" / "IPhreeqc_interface_F.cpp").read_text(errors="replace"))
-    f90 = (vlib.REPO / "src" / "IPhreeqc_interface.F90").read_text(errors="replace")
-    cw = extract_c(src_c)
-    fw = extract_f(src_f)
-    binds = extract_f90(f90)
-    # fail closed: every function the files define must have been recognised, except the callback setters
-    # (function-pointer parameters), which are outside the table
     hdr = (vlib.REPO / "src" / "IPhreeqc.h").read_text(errors="replace")
     hdr_f = (vlib.REPO / "src" / "IPhreeqc_interface_F.h").read_text(errors="replace")
     hdecls, fdecls, facts = header_decls(hdr), header_decls(hdr_f), doc_facts(hdr)
-    if len(hdecls) < 60 or len(fdecls) < 60 or len(facts) < 60:
-        raise RuntimeError(f"gen_api: header declarations not recognised ({len(hdecls)} C, {len(fdecls)} F, {len(facts)} doc blocks)")
-    allc = set(re.findall(r"^(\w+)\s*\((?:int id|void)", src_c, re.M))
-    allf = set(re.findall(r"^(\w+F)\s*\(", src_f, re.M))
-    missing = (allc - {w["name"] for w in cw}) | (allf - {w["name"] for w in fw})
-    if missing or len(cw) < 60 or len(fw) < 60:
-        raise RuntimeError(f"gen_api: wrappers not recognised: {sorted(missing)} ({len(cw)} C, {len(fw)} F)")
-    L = ["/- GENERATED by tools/gen_api.py from src/IPhreeqcLib.cpp, src/IPhreeqc_interface_F.cpp and",
-         "   src/IPhreeqc_interface.F90 — do not edit. -/", "namespace PhreeqcVerif.Gen.Api", "",
+    src_c, consts_c = substitute_constants(strip_comments((vlib.REPO / "src" / "IPhreeqcLib.cpp").read_text(errors="replace")))
+    src_f, consts_f = substitute_constants(strip_comments((vlib.REPO / "src" / "IPhreeqc_interface_F.cpp").read_text(errors="replace")))
+    f90 = (vlib.REPO / "src" / "IPhreeqc_interface.F90").read_text(errors="replace")
+    cw, helpers = extract_c(src_c, {d[0] for d in hdecls})
+    fw = extract_f(src_f, {d[0] for d in fdecls})
+    binds = extract_f90(f90)
+    hf = helper_facts(helpers)
+    unknown = [f"{w['name']}: {w['shape'][1:]}" for w in cw + fw if w["shape"] != "ok"]
+    unknown += [f"{w['name']}: argument of {c[0]} not in normal form" for w in cw + fw for c in w["calls"] if "?" in c[1]]
+    unknown += [f"helper fact {k} not recognised" for k, v in sorted(hf.items()) if v == "?"]
+    L = ["/- GENERATED by tools/gen_api.py from src/IPhreeqcLib.cpp, src/IPhreeqc_interface_F.cpp, src/IPhreeqc_interface.F90,",
+         "   src/IPhreeqc.h and src/IPhreeqc_interface_F.h — do not edit. `shape` = \"ok\" or \"?reason\" (facts of that function could",
+         "   not be brought into a recognised normal form: the obligations say nothing about it, the behavioural tie does);",
+         "   an argument \"?\" is an expression outside the normal forms (parameter, `p != 0`, `*p`, `(*n)-1`, `&v`). -/",
+         "namespace PhreeqcVerif.Gen.Api", "",
          "structure CW where", "  name : String", "  ret : String", "  params : List (String × String)",
          "  calls : List (String × List String)", "  lookups : List (String × String)", "  bad : String",
-         "  badIsStatic : Bool", "  badText : String", "  trans : List (String × String)", "deriving DecidableEq, Repr", "",
+         "  badIsStatic : Bool", "  badText : String", "  trans : List (String × String)", "  shape : String", "deriving DecidableEq, Repr", "",
          "structure FW where", "  name : String", "  ret : String", "  params : List (String × String)",
          "  calls : List (String × List String)", "  pads : List (List String)", "  rowsMinusHeading : Bool",
-         "  rowsGuard : String", "  adjcol : Bool", "deriving DecidableEq, Repr", "",
+         "  rowsGuard : String", "  adjcol : Bool", "  shape : String", "deriving DecidableEq, Repr", "",
          "/-- mechanical reading of one doc block of IPhreeqc.h -/",
          "structure DocFact where", "  name : String", "  retvals : List String", "  negOnError : Bool", "  oneBasedF : Bool",
          "  zeroBasedN : Bool", "  emptyOutOfRange : Bool", "deriving DecidableEq, Repr", ""]
@@ -210,21 +629,21 @@ def generate(ctx=None):
     def calls(cs):
         return lean_list(f"({lean_str(m)}, {lean_list(lean_str(a) for a in args)})" for m, args in cs)
 
+    b = lambda x: "true" if x else "false"
     L.append("def cWrappers : List CW := [")
     L.append(",\n".join(
         f"  ⟨{lean_str(w['name'])}, {lean_str(w['ret'])}, {pairs(w['params'])}, {calls(w['calls'])}, {pairs(w['lookups'])}, "
-        f"{lean_str(w['bad'])}, {'true' if w['bad_is_static'] else 'false'}, {lean_str(w['bad_text'])}, {pairs(w['trans'])}⟩"
+        f"{lean_str(w['bad'])}, {b(w['bad_is_static'])}, {lean_str(w['bad_text'])}, {pairs(w['trans'])}, {lean_str(w['shape'])}⟩"
         for w in cw))
     L.append("]\n")
     L.append("def fWrappers : List FW := [")
     L.append(",\n".join(
         f"  ⟨{lean_str(w['name'])}, {lean_str(w['ret'])}, {pairs(w['params'])}, {calls(w['calls'])}, "
         f"{lean_list(lean_list(lean_str(a) for a in p) for p in w['pads'])}, "
-        f"{'true' if w['rows_minus_heading'] else 'false'}, {lean_str(w['rows_guard'])}, {'true' if w['adjcol'] else 'false'}⟩" for w in fw))
+        f"{b(w['rows_minus_heading'])}, {lean_str(w['rows_guard'])}, {b(w['adjcol'])}, {lean_str(w['shape'])}⟩" for w in fw))
     L.append("]\n")
     L.append("/-- `bind(C, NAME=…)` targets declared in IPhreeqc_interface.F90 with their argument counts -/")
     L.append("def f90Binds : List (String × Nat) := " + lean_list(f"({lean_str(n)}, {k})" for n, k in binds))
-    b = lambda x: "true" if x else "false"
     L.append("\n/-- `IPQ_DLL_EXPORT` declarations of IPhreeqc.h: (name, return type, number of parameters) -/")
     L.append("def hDecls : List (String × String × Nat) := " + lean_list(f"({lean_str(n)}, {lean_str(r)}, {k})" for n, r, k in hdecls))
     L.append("\n/-- `IPQ_DLL_EXPORT` declarations of IPhreeqc_interface_F.h -/")
@@ -232,23 +651,23 @@ def generate(ctx=None):
     L.append("\ndef docFacts : List DocFact := [")
     L.append(",\n".join(f"  ⟨{lean_str(n)}, {lean_list(lean_str(x) for x in rv)}, {b(neg)}, {b(ob)}, {b(zb)}, {b(eo)}⟩" for n, rv, neg, ob, zb, eo in facts))
     L.append("]")
-    # the three helper functions behind Create / Destroy / lookup, as whitespace-normalised source text
-    helpers = {}
-    for ret, name, ptxt, body in functions(src_c):
-        if name.startswith("IPhreeqcLib::"):
-            helpers[name.split("::")[1]] = " ".join(body.split())
-    if sorted(helpers) != ["CreateIPhreeqc", "DestroyIPhreeqc", "GetInstance"]:
-        raise RuntimeError(f"gen_api: helper functions of IPhreeqcLib not recognised: {sorted(helpers)}")
-    L.append("\n/-- bodies of IPhreeqcLib::CreateIPhreeqc / DestroyIPhreeqc / GetInstance (whitespace normalised) -/")
-    L.append("def helperBodies : List (String × String) := " + lean_list(f"({lean_str(k)}, {lean_str(v)})" for k, v in sorted(helpers.items())))
+    L.append("\n/-- semantic facts of IPhreeqcLib::DestroyIPhreeqc / GetInstance / CreateIPhreeqc (\"?\" = shape not recognised):",
+             )
+    L.append("result of Destroy for an id that is negative or not in the map / for a live id; whether exactly the looked-up object is")
+    L.append("deleted; GetInstance searches `IPhreeqc::Instances` by the id and returns the mapped pointer or 0; Create returns the new")
+    L.append("object's Index, and what it returns when allocation fails -/")
+    L.append("def helperFacts : List (String × String) := " + lean_list(f"({lean_str(k)}, {lean_str(v)})" for k, v in sorted(hf.items())))
     L.append("\nend PhreeqcVerif.Gen.Api")
     out = vlib.LEAN / "PhreeqcVerif" / "Gen" / "ApiTable.lean"
     text = "\n".join(L) + "\n"
     if not out.exists() or out.read_text() != text:
         out.write_text(text)
     return {"c_wrappers": len(cw), "f_wrappers": len(fw), "f90_binds": len(binds), "header_decls": len(hdecls),
-            "f_header_decls": len(fdecls), "doc_blocks": len(facts)}
+            "f_header_decls": len(fdecls), "doc_blocks": len(facts), "helpers_in_file": sorted(helpers),
+            "named_constants": {**consts_c, **consts_f}, "facts_not_extracted": unknown,
+            "declared_but_not_defined": sorted(({d[0] for d in hdecls} - {w["name"] for w in cw}) | ({d[0] for d in fdecls} - {w["name"] for w in fw}))}
 
 
 if __name__ == "__main__":
-    print(generate())
+    import json
+    print(json.dumps(generate(), indent=1))
